@@ -188,7 +188,12 @@ TrCardVerify ==
 Distinct(s) == Cardinality(SeqToSet(s)) = Len(s)
 Collisions(s) == Len(s) - Cardinality(SeqToSet(s))
 ByteVaries(s, m) == \A p \in 1..Len(s[1]) : Cardinality({s[k][p] : k \in 1..Len(s)}) >= m
-MinDistinct(n) == IF n >= 2048 THEN 128 ELSE IF n >= 1024 THEN 96 ELSE IF n >= 256 THEN 48 ELSE 8
+MinDistinct(n) == IF n >= 2048 THEN 200 ELSE IF n >= 1024 THEN 150 ELSE IF n >= 256 THEN 100 ELSE 8
+\* every bit of every byte position is set in between a quarter and three quarters of the draws
+\* (n >= 256: more than 8 standard deviations from one half)
+BitVaries(s) == \A p \in 1..Len(s[1]), bit \in 0..7 :
+                   LET ones == Cardinality({k \in 1..Len(s) : (s[k][p] \div (2 ^ bit)) % 2 = 1})
+                   IN 4 * ones >= Len(s) /\ 4 * ones <= 3 * Len(s)
 Slice(v, a, z) == SubSeq(v, a, z)
 
 TrDraws ==
@@ -202,12 +207,14 @@ TrDraws ==
         IF e.site \in {"Salt", "IntegritySalt", "PinSalt", "MatrixSeed"} THEN
           << <<"C15.noRepeat", Distinct(e.obs)>>,
              <<"C15.byteVaries", ByteVaries(e.obs, MinDistinct(n))>>,
+             <<"C15.bitVaries", BitVaries(e.obs)>>,
              <<"C15.drawHappened", e.site = "Salt" => (hooked = n /\ allSite("Salt"))>>,
              <<"C15.usedIsDrawn", e.site = "Salt" => \A k \in 1..hooked : e.obs[k] = e.used[k] /\ e.used[k] = e.raw[k]>> >>
         ELSE IF e.site = "PrivateKey" THEN
           << <<"C15.drawHappened", hooked = n /\ allSite("PrivateKey")>>,
              <<"C15.noRepeat", Distinct(e.obs) /\ Distinct(e.raw)>>,
              <<"C15.byteVaries", ByteVaries(e.raw, MinDistinct(n)) /\ ByteVaries(e.obs, MinDistinct(n) \div 2)>>,
+             <<"C15.bitVaries", BitVaries(e.raw)>>,
              <<"C15.usedIsDrawn", hooked = n =>
                   \A k \in sample : /\ e.used[k] = e.raw[k]
                                     /\ e.obs[k] = (IF e.via = "into_proof" THEN ServerPub(WoWg, WoWN, e.ctx.v, e.used[k])
@@ -220,6 +227,7 @@ TrDraws ==
                                   /\ e.sites[per * (k - 1) + 6] = "ReconnectRefresh" /\ e.sites[per * (k - 1) + 7] = "ReconnectRefresh">>,
              <<"C15.noRepeat", Distinct(four)>>,
              <<"C15.byteVaries", ByteVaries(four, MinDistinct(n))>>,
+             <<"C15.bitVaries", BitVaries(four)>>,
              <<"C15.usedIsDrawn", hooked = per * n =>
                   \A k \in 1..n : \A j \in 1..4 :
                       /\ four[4 * (k - 1) + j] = e.used[per * (k - 1) + 3 + j]
@@ -227,6 +235,7 @@ TrDraws ==
         ELSE IF e.site \in {"VanillaSeed", "TbcSeed", "WrathSeed", "PinGridSeed"} THEN
           << <<"C15.noRepeat", Collisions(e.obs) <= (IF n <= 4096 THEN 4 ELSE 8)>>,
              <<"C15.byteVaries", ByteVaries(e.obs, MinDistinct(n))>>,
+             <<"C15.bitVaries", BitVaries(e.obs)>>,
              <<"C15.drawHappened", e.via = "new" => (hooked = n /\ allSite(e.site))>>,
              <<"C15.usedIsDrawn", e.via = "new" => \A k \in 1..hooked : e.obs[k] = e.used[k] /\ e.used[k] = e.raw[k]>> >>
         ELSE IF e.site = "MatrixDigits" THEN
